@@ -25,7 +25,7 @@ RULE = ('bpch files of 1-3 time steps, 1-4 (category, tracer) blocks per step fr
         'reference encoder = Lean encoder, Lean decoder recovers the spec; (2) bpch1(noscale) presents the raw '
         'values, ncf2bpch of it reproduces the bytes; (3) bpch1 with scaling = float32(raw) * scale with the unit '
         'and name the Lean `resolve` selects; (4) the block-walking reader bpch2 presents the same data as bpch1; '
-        'non-trivial = at least 2 steps and 2 blocks with different layer counts; (5) the scaled file written by ncf2bpch into an empty directory and read again: names, units, values; (6) the front end bpch() with the block-walking reader named and exactly one of noscale / nogroup set; (8) an in-memory copy of the scaled file written twice (unchanged object, equal bytes); (7) bpch1 with a stepped / reversed / end-relative timeslice: tau0 and values of exactly the selected time blocks')
+        'non-trivial = at least 2 steps and 2 blocks with different layer counts; (5) the scaled file written by ncf2bpch into an empty directory and read again: names, units, values; (6) the front end bpch() with the block-walking reader named and exactly one of noscale / nogroup set; (9) three time blocks whose middle one stores two equally long tracers in the other order (the memory-mapped reader has to refuse, the public reader reads through its fallback); (8) an in-memory copy of the scaled file written twice (unchanged object, equal bytes); (7) bpch1 with a stepped / reversed / end-relative timeslice: tau0 and values of exactly the selected time blocks')
 ASSUMPTIONS = ['float32 multiplication by the scale factor is numpy, checked numerically (not modelled)',
                'numpy memmap / structured dtypes are trusted for the stride arithmetic, which is exercised on every case']
 MIN_NONTRIVIAL = {'quick': 15, 'thorough': 200}
@@ -38,7 +38,21 @@ def gen(rng, tier):
     for i in range(n):
         c = B.gen(rng)
         c['drop_line'] = rng.random() < 0.2         # the first block's tracer has no tracerinfo line
+        c['running'] = c['nt'] >= 2 and rng.random() < 0.2      # running averages: the blocks of a tracer share tau0
         c['tslice'] = rng.choice([[None, None, 2], [1, None, None], [None, None, -1], [-1, None, None], [None, -1, None], [1, None, 2]])
+        out.append(c)
+    for _ in range(4 if tier == 'quick' else 60):
+        # three time blocks, the middle one with two equally long tracers in the other order
+        c = B.gen(rng)
+        while c['nt'] != 3 or len(c['blocks']) < 3:
+            c = B.gen(rng)
+        # (not the first tracer: it is the one whose return marks the end of a time block)
+        c['blocks'][2]['nz'] = c['blocks'][1]['nz']
+        for t in range(3):
+            c['data'][t][2] = [camx.rand_f32_bits(rng) for _ in range(c['nx'] * c['ny'] * c['blocks'][2]['nz'])]
+        c['tperm'] = [0, 1, 2]
+        c['drop_line'] = False
+        c['midswap'] = [1, 2]
         out.append(c)
     c = B.gen(rng)
     c['nt'] = 2
@@ -83,7 +97,54 @@ def tables_for(c, d):
         open(p, 'w').write('\n'.join(lines))
 
 
+def _impl_midswap(case):
+    """a file whose middle time block stores two equally long tracers in the other order: legal for the format, outside
+    what the memory-mapped reader accepts (it must refuse it) and read by the public reader through its fallback"""
+    from PseudoNetCDF.geoschemfiles._bpch import bpch1
+    from PseudoNetCDF.geoschemfiles._bpchmaster import bpch as front
+    d = tempfile.mkdtemp(prefix='c18s_', dir=camx.tmpdir())
+    try:
+        with lib.pnc_warnings(), contextlib.redirect_stdout(io.StringIO()):
+            p = os.path.join(d, 'a.bpch')
+            open(p, 'wb').write(B.encode(case))
+            tables_for(case, d)
+            res = dict(midswap=True)
+            try:
+                res['bpch1'] = view(bpch1(p, noscale=True), case)
+            except Exception as e:
+                res['bpch1'] = dict(err=type(e).__name__)
+            try:
+                res['front'] = view(front(p, noscale=True), case)
+            except Exception as e:
+                res['front'] = dict(err='%s %s' % (type(e).__name__, str(e)[:80]))
+            return res
+    finally:
+        shutil.rmtree(d, True)
+
+
+def _oracle_midswap(case, res):
+    for tag in ('bpch1', 'front'):
+        v = res[tag]
+        if 'err' in v:
+            if tag == 'front':
+                return 'the public reader raised on a file whose middle time block lists two tracers in the other order: ' + v['err']
+            continue
+        want0 = [B.taus(case, t)[0] for t in range(case['nt'])]
+        if [float(x) for x in v['tau0']] != want0:
+            return '%s presents tau0 %s, the file holds %s' % (tag, v['tau0'], want0)
+        got = {x['key']: x for x in v['vars']}
+        for bi, b in enumerate(case['blocks']):
+            want = [w for t in range(case['nt']) for w in case['data'][t][bi]]
+            key = [k for k in got if got[k]['tracerid'] == b['tid'] and got[k]['category'] == b['cat']]
+            if not key or got[key[0]]['bits'] != want:
+                return '%s presents other values for tracer %s/%d than its own blocks hold (a middle time block stores two tracers in the other order)' % (
+                    tag, b['cat'], b['tid'])
+    return None
+
+
 def impl(case):
+    if case.get('midswap'):
+        return _impl_midswap(case)
     from PseudoNetCDF.geoschemfiles._bpch import bpch1, ncf2bpch
     from PseudoNetCDF.geoschemfiles._newbpch import bpch2
     d = tempfile.mkdtemp(prefix='c18_', dir=camx.tmpdir())
@@ -201,6 +262,8 @@ def _tinfo(case):
 
 
 def to_line(case, res):
+    if case.get('midswap'):
+        return 'c18 dec %s' % B.encode(case).hex()
     return 'c18 dec %s' % res['hex']
 
 
@@ -212,6 +275,8 @@ def _model_extra(case, res):
 
 
 def agree(case, out, res):
+    if case.get('midswap'):
+        return None         # the grouping of the Lean decoder is that of the memory-mapped reader (repeat_breaks_grouping): oracle only
     enc, reso = _model_extra(case, res)
     if enc != 'ok ' + res['hex']:
         return 'the python reference encoder and the Lean encoder differ'
@@ -238,6 +303,8 @@ def agree(case, out, res):
 
 
 def oracle(case, res):
+    if case.get('midswap'):
+        return _oracle_midswap(case, res)
     if 'err' in res:
         return 'reading a well-formed file raised %s %s' % (res['err'], res.get('msg'))
     if res['rewritten'] != res['hex']:
@@ -324,7 +391,7 @@ def oracle(case, res):
                 if b2['key'] != a['key'] or b2['bits'] != want:
                     return 'timeslice=slice%s: values of %s are not those of time blocks %s' % (tuple(case['tslice']), a['key'], idx)
     want0 = [B.taus(case, t)[0] for t in range(case['nt'])]
-    if res['raw']['tau0'] != want0 or res['raw']['tau1'] != [x + case['dtau'] for x in want0]:
+    if res['raw']['tau0'] != want0 or res['raw']['tau1'] != [B.taus(case, t)[1] for t in range(case['nt'])]:
         return 'tau0/tau1 %s %s, written %s' % (res['raw']['tau0'], res['raw']['tau1'], want0)
     if 'err' in res['bpch2']:
         b0 = case['blocks'][0]
@@ -343,6 +410,8 @@ def classify(case, failure, model_out):
 
 
 def nontrivial(case, res):
+    if case.get('midswap'):
+        return 'err' not in res.get('front', {})
     return 'err' not in res and case['nt'] >= 2 and len({b['nz'] for b in case['blocks']}) >= 2
 
 
